@@ -12,15 +12,15 @@ import (
 type hKind byte
 
 const (
-	hBase     hKind = iota // uninterpreted function `name`
-	hStore                 // prev with [idx...] := val
-	hIte                   // c ? a : b
-	hOverlay               // idx[0] < bound ? prev : other     (objects allocated by a callee)
-	hRowCopy               // 2-index: [ref, j] := src[srcRef, j]
-	hRowConst              // n-index, first index = ref: [ref, *] := val
-	hRowShift              // 2-index: [ref, j] := src[srcRef, j + delta]
-	hConst                 // constant function (used for zero-initialised fresh families)
-	hRowSplice             // 2-index: [ref, j] := j < cond ? src[srcRef, j] : src[val, j + delta]
+	hBase      hKind = iota // uninterpreted function `name`
+	hStore                  // prev with [idx...] := val
+	hIte                    // c ? a : b
+	hOverlay                // idx[0] < bound ? prev : other     (objects allocated by a callee)
+	hRowCopy                // 2-index: [ref, j] := src[srcRef, j]
+	hRowConst               // n-index, first index = ref: [ref, *] := val
+	hRowShift               // 2-index: [ref, j] := src[srcRef, j + delta]
+	hConst                  // constant function (used for zero-initialised fresh families)
+	hRowSplice              // 2-index: [ref, j] := j < cond ? src[srcRef, j] : src[val, j + delta]
 )
 
 type HNode struct {
